@@ -9,6 +9,30 @@ TB = ("Lean 4.33 kernel + axioms propext/Classical.choice/Quot.sound (audited pe
       "tools/translate.py and the correspondence harness tie the model to /repo; ")
 
 CLAIMED = {
+ "C02": dict(
+   technique="Lean 4 proof (induction over steps on a path-sum / MPO-contraction model) + differential correspondence on the real tensors",
+   text=("Theorems for every number of steps, bond dimension, influence table (hence memory setting) and propagator "
+         "sequence: step-by-step MPO contraction (compute_dynamics' loop) equals the dynamics of the dense process tensor "
+         "(contraction_exact); the dense process tensor of the influence functional contracted with the system equals "
+         "TEMPO's path sum (pt_dynamics_eq_tempo); hence any MPO whose dense form is the influence functional reproduces "
+         "TEMPO (mpo_dynamics_eq_tempo). The model is tied to the code by running real Tempo, real pt_tempo_compute + "
+         "compute_dynamics and the dense form of the real MPO against the Lean definitions on the same real tensors (1e-8)."),
+   ref="§4 C02",
+   note=TB + "exact arithmetic over a commutative ring; scipy expm/quad and the SVD compression of PT-TEMPO are not "
+        "modelled: their outputs enter as data and the hypothesis 'dense MPO = influence functional' is checked on sampled "
+        "paths each run; 'tightens with tolerance' not shown."),
+ "C04": dict(
+   technique="Lean 4 proof (invariant of the path sum by induction over steps) + hypothesis instances evaluated in Lean on the real tensors",
+   text=("Proved for all n, dimensions, tables and memory settings: the TEMPO path sum preserves the trace covector "
+         "(trace_preserved) and Hermiticity (hermitian_preserved) whenever the half-step propagators and basis changes do and "
+         "the influence tables have the unit / conjugation property; both properties are proved for influence_matrix's "
+         "formula (influence_unit, influence_conj) and for every memory schedule (influence_unit_of_tables); the same for "
+         "PT-TEMPO + compute_dynamics through C02 (pt_trace_preserved, pt_hermitian_preserved). Each run evaluates the "
+         "theorems' hypotheses in Lean on the code's actual propagators / influence tables and compares real Tempo and "
+         "compute_dynamics states with the model."),
+   ref="§4 C04",
+   note=TB + "positivity is NOT shown (DESIGN §6); PT-TEBD norm / Gibbs normalisation are handled under C10 / C11; "
+        "scipy expm/quad outputs are data whose trace/Hermiticity preservation is checked per run, not proved."),
  "C13": dict(
    technique="Lean 4 proof over a model regenerated from source (translator) + differential correspondence",
    text=("Step-count and label expressions of all APIs are regenerated from the source into Lean on every run; "
